@@ -43,11 +43,13 @@ namespace occa {
     if (!modeStream) {
       return;
     }
-    modeStream->removeStreamRef(this);
+    // Whether this was the last reference is decided together with its
+    // removal: the object may be gone as soon as another thread removes its own
+    const bool needsFree = modeStream->removeStreamRef(this);
 #ifdef LIBOCCA_OCCA_VERIF
     verif::yield(verif::ptAfterRemoveStreamRef);
 #endif
-    if (modeStream->modeStream_t::needsFree()) {
+    if (needsFree) {
       free();
     }
   }
